@@ -27,7 +27,7 @@ ASSUMPTIONS = ["the dense model is differentiable in the leaves the same way the
                "tolerances: direct paths 1e-6*kappa (f64) / 5e-3 (f32); iterative paths 2e-3 (f64), float32 iterative paths are not judged"]
 REQUIRED_STATS = ("grads_compared", "bilinear_calls_checked")
 
-ENTRIES = ["matmul", "matmul_vec", "matmul_bcast", "rmatmul", "solve", "solve_left", "inv_quad", "logdet", "inv_quad_logdet", "diagonal", "to_dense",
+ENTRIES = ["matmul", "matmul_vec", "matmul_bcast", "matmul_bcast2", "rmatmul", "solve", "solve_left", "inv_quad", "logdet", "inv_quad_logdet", "diagonal", "to_dense",
            "getitem", "sum_batch", "root", "root_inv", "pchol", "sqrt_inv_matmul", "bilinear", "bilinear_extra_dim", "add_diag_solve", "mul_const"]
 SYM_ONLY = {"solve", "solve_left", "inv_quad", "logdet", "inv_quad_logdet", "root", "root_inv", "pchol", "sqrt_inv_matmul", "add_diag_solve"}
 PD_ONLY = SYM_ONLY
@@ -298,7 +298,7 @@ def _msqrt_inv(D):
 
 def run_entry(entry, op, D, R, L, W_of, idx):
     """-> (library output, dense output) as tensors (or tuples flattened to one tensor)"""
-    if entry in ("matmul", "matmul_bcast", "matmul_vec"):
+    if entry in ("matmul", "matmul_bcast", "matmul_bcast2", "matmul_vec"):
         return op @ R, D @ R
     if entry == "rmatmul":
         return L @ op, L @ D
@@ -443,7 +443,10 @@ def run_case(case, ctx):
             return
     # right-hand sides
     k = 1 + int(torch.randint(3, (), generator=g))
-    rshape = {"matmul_vec": [m], "matmul_bcast": [2] + batch + [m, k]}.get(entry, batch + [m if entry in ("matmul", "mul_const") else n, k])
+    # matmul_bcast2: a right-hand side whose batch has a singleton BEHIND a non-singleton dimension ((2,1) against an operator batch (b,),
+    # (b0,1) against (b0,b1)): its gradient has to be summed over an inner broadcast dimension
+    bc2 = [batch[0], 1] if len(batch) == 2 else [2, 1]
+    rshape = {"matmul_vec": [m], "matmul_bcast": [2] + batch + [m, k], "matmul_bcast2": bc2 + [m, k]}.get(entry, batch + [m if entry in ("matmul", "mul_const") else n, k])
     if entry in ("matmul_vec", "matmul_bcast", "matmul", "mul_const"):
         pass
     R = torch.randn(tuple(rshape), generator=g, dtype=torch.float64).to(dt).requires_grad_(case["rhs_grad"])
